@@ -367,7 +367,7 @@ def main_check(tier, prop):
         'exhaustive': False,
     }
     if vm is not None:
-        coverage['in_coq_correspondence'] = {'cases': vm['cases'], 'agree': vm['agree'], 'how': 'tools/vmcheck.py: Compile.compile (CASE lines: ASCII sources without format()) and Format.format_text (FMT lines) evaluated by vm_compute inside Coq on a sample of this run\'s cases, compared with the implementation\'s recorded result; no extraction, no OCaml driver'}
+        coverage['in_coq_correspondence'] = {'cases': vm['cases'], 'agree': vm['agree'], 'how': 'tools/vmcheck.py: Compile.compile (CASE lines: ASCII sources without format()), Format.format_text (FMT lines) and Lexer.lex (LEX lines: ASCII sources, all eight token fields) evaluated by vm_compute inside Coq on a sample of this run\'s cases, compared with the implementation\'s recorded result; no extraction, no OCaml driver'}
     if coqchk is not None:
         coverage['coqchk'] = coqchk
     write_evidence(prop, tier, seed, 'proof', coverage, time.time() - t0, viol,
